@@ -5,6 +5,7 @@ import (
 	"go/token"
 	"reflect"
 	"strings"
+	"sync"
 
 	"github.com/ipfs/go-cid"
 	"github.com/ipld/go-ipld-prime/datamodel"
@@ -394,6 +395,15 @@ func fieldNameFromSchema(name string) string {
 
 var defaultTypeSystem schema.TypeSystem
 
+// Inference accumulates into the process-wide defaultTypeSystem, so it is
+// serialised, and the schema inferred for a Go type is remembered: inferring
+// the same Go type again (or another type sharing one of its parts) returns
+// the same schema type instead of accumulating a duplicate type name.
+var (
+	inferMu       sync.Mutex
+	inferredTypes = map[reflect.Type]schema.Type{}
+)
+
 func init() {
 	defaultTypeSystem.Init()
 
@@ -417,6 +427,13 @@ func init() {
 func inferSchema(typ reflect.Type, level int) schema.Type {
 	if level > maxRecursionLevel {
 		panic(fmt.Sprintf("inferSchema: refusing to recurse past %d levels", maxRecursionLevel))
+	}
+	if level == 0 {
+		inferMu.Lock()
+		defer inferMu.Unlock()
+	}
+	if known, ok := inferredTypes[typ]; ok {
+		return known
 	}
 	switch typ.Kind() {
 	case reflect.Bool:
@@ -454,6 +471,7 @@ func inferSchema(typ reflect.Type, level int) schema.Type {
 		}
 		typSchema := schema.SpawnStruct(name, fieldsSchema, nil)
 		defaultTypeSystem.Accumulate(typSchema)
+		inferredTypes[typ] = typSchema
 		return typSchema
 	case reflect.Slice:
 		if typ.Elem().Kind() == reflect.Uint8 {
@@ -472,6 +490,7 @@ func inferSchema(typ reflect.Type, level int) schema.Type {
 		}
 		typSchema := schema.SpawnList(name, etypSchema.Name(), nullable)
 		defaultTypeSystem.Accumulate(typSchema)
+		inferredTypes[typ] = typSchema
 		return typSchema
 	case reflect.Interface:
 		// these types must match exactly since we need symmetry of being able to
